@@ -2,6 +2,7 @@
 from common import *
 from msgcheck import *
 import c04
+import os
 
 CHK = ("SBEPP_ENABLE_ASSERTS_WITH_HANDLER", "MSGDRV_CURSOR")
 
@@ -33,6 +34,16 @@ def safe_decode_script(s, lv, t, path="."):
     return ops
 
 
+def checked_op(op):
+    """the same operation in the checked model (coq/CheckedAccess.v: explicit SBEPP_SIZE_CHECK calls);
+    the cursor traversal has no checked random-access counterpart"""
+    return None if op.split()[0] == "ctrav" else "c" + op
+
+
+def is_oob(a):
+    return a == "OOB" or a.endswith("OOB")
+
+
 def run(res, replay=None):
     rng = SplitMix64(res.seed + 10)
     res.rule = ("size checks enabled (assertion handler), buffer [p, p+n) ending on a PROT_NONE page. (a) reference-encoder "
@@ -40,9 +51,14 @@ def run(res, replay=None):
                 "lengths elsewhere x every accessor kind (scalar, array element, composite member, group geometry and size, "
                 "entry size, data size and payload, message size, complete cursor traversal); (b) hostile dimension / length "
                 "values steering later views past the end. Required: never a memory fault (an access at or beyond p+n that "
-                "no assertion reported); a returned value equals the value on the complete image; where the model's accessed "
-                "bytes leave the buffer the handler fires; on the complete image nothing fires. Non-trivial = op reaching a "
-                "group, entry or data member.")
+                "no assertion reported); the outcome of every op at every truncation point is the outcome of the checked "
+                "model (coq/CheckedAccess.v: the library's SBEPP_SIZE_CHECK calls in order, interleaved with the reads; "
+                "CheckedAccessProofs.v: AOk => every touched range inside the buffer and the value of the unchecked "
+                "Msg.v function): model ASSERT <=> handler invoked, model value = returned value. Cross-check kept from "
+                "the read-based model (Msg.v rd/in_buf): where its accessed bytes leave the buffer the checked model must "
+                "assert, where both return a value the values agree; checked-model assertions with all READ bytes inside "
+                "the buffer (whole-header / whole-entry checks) are counted as `conservative`. On the complete image "
+                "nothing fires. Non-trivial = op reaching a group, entry or data member.")
     ok_proof = proof_step(res)
     model = Model()
     found = False
@@ -53,7 +69,8 @@ def run(res, replay=None):
         cfgs += [("clang++", "c++17", ("-O1",), CHK)]
     res.extra["configurations"] = ["%s -std=%s (asserts with handler)" % (c[0], c[1]) for c in cfgs]
     cases = prepare_many(res.seed, nschemas, cfgs)
-    dist = {"value": 0, "assert": 0, "full": 0}
+    dist = {"value": 0, "assert": 0, "full": 0, "conservative": 0}
+    conservative_samples = []
     for ci, mc in enumerate(cases):
         if mc.error:
             kind, msg = mc.error
@@ -94,9 +111,10 @@ def run(res, replay=None):
             pts.update(range(0, len(img), 5))
             pts.update({lay["hdr"] - 1, lay["hdr"], lay["hdr"] + 1, len(img) - 1})
             pts = sorted(p for p in pts if 0 <= p <= len(img))
+            cscript = [checked_op(op) for op in script]
             for n in pts:
                 jobs.append((m, img, n, script, len(mlines), len(ilines)))
-                mlines += [model_msg_line(s, m), "buf " + hx(img[:n])] + script
+                mlines += [model_msg_line(s, m), "buf " + hx(img[:n])] + script + [c for c in cscript if c]
                 ilines += ["use " + m.name, "buf " + hx(img[:n])] + script
         mout = model.run(mlines)
         full = {}
@@ -112,20 +130,52 @@ def run(res, replay=None):
                 continue
             for (m, img, n, script, mo, io) in jobs:
                 fl = full[(m.name, img)]
+                cidx, nc = {}, 0
+                for j, op in enumerate(script):
+                    if checked_op(op):
+                        cidx[j] = mo + 2 + len(script) + nc
+                        nc += 1
                 for j, op in enumerate(script):
                     a = mout[mo + 2 + j]
+                    cm = mout[cidx[j]] if j in cidx else None      # checked model: value | ASSERT
                     b2 = iout[io + 2 + j]
                     if op == "ctrav":
                         b2 = b2.partition(" | ")[0]
                     res.count((s.package, m.name, hx(img)[:32], n, op, cxx, std), " " in op and op.split()[1] != ".")
                     base = {"schema_xml": mc.xml, "message": m.name, "image": hx(img), "n": n, "op": op,
-                            "model_on_truncated": a, "observed": b2, "on_full_image": fl[j], "config": [cxx, std]}
+                            "model_on_truncated": a, "checked_model": cm, "observed": b2, "on_full_image": fl[j],
+                            "config": [cxx, std]}
                     if "FAULT" in b2:
                         found |= res.violation("silent-oob:%s" % op.split()[0],
                                                "`%s` on a %d-byte view touched memory at or beyond p+%d without invoking the handler"
                                                % (op, n, n), base)
                         continue
                     is_assert = "ASSERT" in b2
+                    if cm is not None:
+                        # cross-check of the two models (theorems (a)/(c) of CheckedAccessProofs.v, observed)
+                        if cm.startswith("ERR"):
+                            found |= res.violation("model-error:%s" % op.split()[0], "checked model: %s" % cm, base)
+                            continue
+                        if is_oob(a) and cm != "ASSERT":
+                            found |= res.violation("model-disagreement:%s" % op.split()[0],
+                                                   "`%s` on a %d-byte view: the checked model returns %s although the read-based "
+                                                   "model's accessed bytes leave the buffer" % (op, n, cm), base)
+                            continue
+                        if not is_oob(a) and cm != "ASSERT" and cm != a:
+                            found |= res.violation("model-disagreement:%s" % op.split()[0],
+                                                   "`%s` on a %d-byte view: checked model %s, read-based model %s" % (op, n, cm, a), base)
+                            continue
+                        if not is_oob(a) and cm == "ASSERT":
+                            if n == len(img):
+                                found |= res.violation("model-spurious-assert:%s" % op.split()[0],
+                                                       "`%s` on the complete image: the checked model asserts" % op, base)
+                                continue
+                            dist["conservative"] += 1
+                            if len(conservative_samples) < int(os.environ.get("C10_CONSERVATIVE_SAMPLES", "8")) and (cxx, std) == cfgs[0][:2]:
+                                why = model.run([model_msg_line(s, m), "buf " + hx(img[:n]), checked_op(op), "cwhy"])[3]
+                                conservative_samples.append({"schema": s.package, "message": m.name, "image": hx(img), "n": n,
+                                                             "op": op, "read_based_model": a, "checked_model": cm, "observed": b2,
+                                                             "failing_check": why, "schema_xml": mc.xml})
                     if n == len(img):
                         dist["full"] += 1
                         if is_assert:
@@ -134,13 +184,28 @@ def run(res, replay=None):
                         elif b2 != a:
                             found |= res.violation("value:%s" % op.split()[0], "`%s`: implementation %s, model %s" % (op, b2, a), base)
                         continue
+                    if cm is not None:
+                        # expected outcome at this truncation point = outcome of the checked model
+                        if cm == "ASSERT" and not is_assert:
+                            found |= res.violation("unreported-oob:%s" % op.split()[0],
+                                                   "`%s` on a %d-byte view returned %s where the library's own size checks (checked model) "
+                                                   "must invoke the handler (read-based model: %s)" % (op, n, b2, a), base)
+                        elif cm != "ASSERT" and is_assert:
+                            found |= res.violation("spurious-assert:%s" % op.split()[0],
+                                                   "`%s` on a %d-byte view invoked the handler although every size check of the checked "
+                                                   "model passes (expected %s)" % (op, n, cm), base)
+                        elif cm != "ASSERT" and b2 != cm:
+                            found |= res.violation("value-truncated:%s" % op.split()[0],
+                                                   "`%s` on a %d-byte view: implementation %s, checked model %s" % (op, n, b2, cm), base)
+                        dist["assert" if is_assert else "value"] += 1
+                        continue
                     if is_assert:
                         dist["assert"] += 1
                         continue
                     dist["value"] += 1
                     # a value was returned on a truncated buffer: it must be the true value, and the model's
                     # accessed bytes must have been inside the buffer
-                    if a in ("OOB",) or a.endswith("OOB"):
+                    if is_oob(a):
                         found |= res.violation("unreported-oob:%s" % op.split()[0],
                                                "`%s` on a %d-byte view returned %s although the accessed bytes leave the buffer (model: %s)"
                                                % (op, n, b2, a), base)
@@ -175,7 +240,7 @@ def run(res, replay=None):
                 buf = bytes(8) + hv.to_bytes(w, "little") + bytes(range(1, 57 - w))   # 64 bytes in total
                 script = ["dinfo . 0", "getd . 0", "dinfo . 1", "getd . 1", "size"]
                 jobs.append((mm, hv, buf, script, len(mlines), len(ilines)))
-                mlines += [model_msg_line(ps, mm), "buf " + hx(buf)] + script
+                mlines += [model_msg_line(ps, mm), "buf " + hx(buf)] + script + [checked_op(op) for op in script]
                 ilines += ["use " + mm.name, "buf " + hx(buf)] + script
         mout = model.run(mlines)
         for (cxx, std), exe in pc.exes.items():
@@ -187,6 +252,7 @@ def run(res, replay=None):
             for (mm, hv, buf, script, mo, io) in jobs:
                 for j, op in enumerate(script):
                     a = mout[mo + 2 + j]
+                    cm = mout[mo + 2 + len(script) + j]
                     b2 = iout[io + 2 + j]
                     if j >= 2 and 8 + 2 * W[mm.name[2:]] + hv >= 2 ** 64:
                         # sizeof(length) + length wraps size_t: the next member is located BEFORE the view;
@@ -194,21 +260,37 @@ def run(res, replay=None):
                         continue
                     res.count(("hostile", mm.name, hv, op, cxx, std))
                     base = {"schema_xml": pc.xml, "message": mm.name, "buffer": hx(buf), "d1_length": hv, "op": op,
-                            "model": a, "observed": b2, "config": [cxx, std]}
-                    oob = a == "OOB" or a.endswith("OOB")
+                            "model": a, "checked_model": cm, "observed": b2, "config": [cxx, std]}
+                    oob = is_oob(a)
+                    if cm.startswith("ERR") or (oob and cm != "ASSERT") or (not oob and cm != "ASSERT" and cm != a):
+                        found |= res.violation("model-disagreement:hostile-length:%s" % mm.name[2:],
+                                               "`%s` with d1.length=%d: checked model %s, read-based model %s" % (op, hv, cm, a), base)
+                        continue
+                    if not oob and cm == "ASSERT":
+                        dist["conservative"] += 1
                     if "FAULT" in b2:
                         found |= res.violation("silent-oob:hostile-length:%s" % mm.name[2:],
                                                "`%s` with d1.length=%d in a 64-byte view touched memory beyond the view without invoking the handler" % (op, hv), base)
                     elif oob and "ASSERT" not in b2:
                         found |= res.violation("unreported-oob:hostile-length:%s" % mm.name[2:],
                                                "`%s` with d1.length=%d in a 64-byte view returned `%s` although the accessed bytes leave the buffer" % (op, hv, b2), base)
-                    elif not oob and b2 != a:
+                    elif cm == "ASSERT" and "ASSERT" not in b2:
+                        found |= res.violation("unreported-oob:hostile-length:%s" % mm.name[2:],
+                                               "`%s` with d1.length=%d in a 64-byte view returned `%s` where the checked model asserts" % (op, hv, b2), base)
+                    elif cm != "ASSERT" and "ASSERT" in b2:
+                        found |= res.violation("spurious-assert:hostile-length:%s" % mm.name[2:],
+                                               "`%s` with d1.length=%d invoked the handler although every size check of the checked model passes" % (op, hv), base)
+                    elif cm != "ASSERT" and b2 != cm:
                         found |= res.violation("value:hostile-length:%s" % mm.name[2:],
-                                               "`%s` with d1.length=%d: implementation %s, model %s" % (op, hv, b2, a), base)
+                                               "`%s` with d1.length=%d: implementation %s, checked model %s" % (op, hv, b2, cm), base)
     res.extra["outcomes"] = dist
+    res.extra["conservative_checks"] = {
+        "meaning": "library (and checked model) assert although every byte the operation READS is inside the buffer: the failing "
+                   "check claims a whole header composite / the whole entry an iterator steps over",
+        "count": dist["conservative"], "samples": conservative_samples}
     if not ok_proof:
         proof_failure_violation(res, found)
     return res.finish(trusted=[
         "guard page placement and signal plumbing (cpp/harness_util.hpp) as the observer of out-of-view accesses",
-        "Msg.v/Cursor.v model (accessed bytes), tied by differential runs",
+        "Msg.v/Cursor.v model (accessed bytes) and CheckedAccess.v (the library's size checks), tied by differential runs",
         "harness/msggen.py, harness/msgdrv.py; extraction: ExtrOcamlBasic only"])
